@@ -9,6 +9,9 @@ package main
 import (
 	"encoding/json"
 	"fmt"
+	segutils "github.com/siglens/siglens/pkg/segment/utils"
+	sigutils "github.com/siglens/siglens/pkg/utils"
+	vtable "github.com/siglens/siglens/pkg/virtualtable"
 	"math/rand"
 	"os"
 	"runtime"
@@ -505,31 +508,95 @@ func checkStressAnswer(form string, hits []map[string]interface{}, measures inte
 	}
 }
 
-// first_ingest: the very first ingest requests of a fresh process arrive concurrently (one goroutine per index, released
-// together).  Reports what was acknowledged; a process death is seen by the caller.
+// first_ingest: the very first ingest requests for a NEW index arrive concurrently (goroutines released together), round
+// after round with a fresh index name each time; after every round the buffer is flushed and a match-all search must return
+// every acknowledged event exactly once (racing creations of the index's segment store must not orphan events).
 func init() { reg("first_ingest", cmdFirstIngest) }
 
 func cmdFirstIngest(c Cmd) (interface{}, error) {
 	g := int(c.i64("goroutines", 8))
 	per := int(c.i64("events", 3))
-	start := make(chan struct{})
-	var wg sync.WaitGroup
-	errs := make([]string, g)
-	for i := 0; i < g; i++ {
-		wg.Add(1)
-		go func(i int) {
-			defer wg.Done()
-			var sb strings.Builder
-			for k := 0; k < per; k++ {
-				fmt.Fprintf(&sb, "{\"index\":{\"_index\":\"fi%d\"}}\n{\"id\":%d,\"timestamp\":%d}\n", i, k+1, 1700000000000+int64(k))
-			}
-			<-start
-			if _, _, err := eswriter.HandleBulkBody([]byte(sb.String()), nil, 0, 0, false); err != nil {
-				errs[i] = err.Error()
-			}
-		}(i)
+	rounds := int(c.i64("rounds", 1))
+	type roundRes struct {
+		Index   string   `json:"index"`
+		Acked   int      `json:"acked"`
+		Found   int      `json:"found"`
+		Dup     int      `json:"dup"`
+		Errors  []string `json:"errors"`
+		QueryEr string   `json:"query_error,omitempty"`
 	}
-	close(start)
-	wg.Wait()
-	return map[string]interface{}{"errors": errs}, nil
+	out := []roundRes{}
+	var zero time.Duration
+	for r := 0; r < rounds; r++ {
+		index := fmt.Sprintf("fi%d", r)
+		// the index is known already (as for an index whose segment store was closed for being idle): what races is the
+		// creation of the stream's segment store inside AddEntryToInMemBuf, which every ingest handler ends in
+		if err := vtable.AddVirtualTable(&index, 0); err != nil {
+			return nil, err
+		}
+		streamid := sigutils.CreateStreamId(index, 0)
+		var ready atomic.Int32
+		var wg sync.WaitGroup
+		errs := make([]string, g)
+		for i := 0; i < g; i++ {
+			wg.Add(1)
+			go func(i int) {
+				defer wg.Done()
+				tsKey := "timestamp"
+				var stackbuf [256]byte
+				ples := []*writer.ParsedLogEvent{}
+				for k := 0; k < per; k++ {
+					id := i*per + k + 1
+					raw := []byte(fmt.Sprintf("{\"id\":%d,\"timestamp\":%d}", id, 1700000000000+int64(id)))
+					ple, err := writer.GetNewPLE(raw, 1700000000000, index, &tsKey, stackbuf[:])
+					if err != nil {
+						errs[i] = err.Error()
+						return
+					}
+					ples = append(ples, ple)
+				}
+				ready.Add(1)
+				for spins := 0; int(ready.Load()) < g; spins++ {
+					if spins > 2000 {
+						runtime.Gosched()
+					}
+				}
+				if err := writer.AddEntryToInMemBuf(streamid, index, false, segutils.SIGNAL_EVENTS, 0, 0, map[uint64]string{}, stackbuf[:], ples); err != nil {
+					errs[i] = err.Error()
+				}
+			}(i)
+		}
+		wg.Wait()
+		rr := roundRes{Index: index, Errors: []string{}}
+		for _, e := range errs {
+			if e != "" {
+				rr.Errors = append(rr.Errors, e)
+			} else {
+				rr.Acked += per
+			}
+		}
+		writer.FlushWipBufferToFile(&zero, nil)
+		nextQidMu.Lock()
+		nextQid++
+		qid := nextQid
+		nextQidMu.Unlock()
+		m := map[string]interface{}{"searchText": "*", "indexName": index, "startEpoch": uint64(1),
+			"endEpoch": uint64(1900000000000), "queryLanguage": "Splunk QL", "size": json.Number("10000")}
+		resp, _, _, err := pipesearch.ParseAndExecutePipeRequest(m, qid, 0, time.Now(), "-1", nil)
+		if err != nil || resp == nil {
+			rr.QueryEr = fmt.Sprint(err)
+		} else {
+			seen := map[int64]bool{}
+			for _, h := range resp.Hits.Hits {
+				id := toI64(h["id"])
+				if seen[id] {
+					rr.Dup++
+				}
+				seen[id] = true
+			}
+			rr.Found = len(seen)
+		}
+		out = append(out, rr)
+	}
+	return map[string]interface{}{"rounds": out}, nil
 }
